@@ -39,6 +39,9 @@ def gen_plan(seed, i, tier):
         init = {'settle': rng.chance(0.5), 'builder': {'version': ver, 'salt': rng.below(1 << 30), 'nodes': rng.below(5), 'shapes': shapes}}
     else:
         types = synth.block_types()
+        if rng.chance(0.5):
+            # collision / constraint graphs and controller chains: the graph shapes the sorter treats specially
+            types = [t for t in types if t.startswith('bhk') or 'Controller' in t or 'Interpolator' in t or 'Collision' in t or 'Sequence' in t]
         t = rng.choice(types)
         while t in synth.BUILDER_ONLY:
             t = rng.choice(types)
